@@ -71,7 +71,7 @@ func pow(b, n int) int {
 func (c20) Build(tier string, seed uint64) []any {
 	var cs []any
 	th := tier == "thorough"
-	mqMax, nMQ, nT1PerStyle, dwtMax, nDWT, nRCT := 8, 1500, 120, 7, 2000, 60
+	mqMax, nMQ, nT1PerStyle, dwtMax, nDWT, nRCT := 8, 1500, 700, 7, 2000, 60
 	if th {
 		mqMax, nMQ, nT1PerStyle, dwtMax, nDWT, nRCT = 16, 3000, 1500, 8, 6000, 200
 	}
